@@ -22,6 +22,10 @@ const (
 	SignatureLengthBytes        = 2
 )
 
+// MaxSignatureLength is the longest signature the 2-byte length prefix of a
+// DigitallySigned structure can describe.
+const MaxSignatureLength = (1 << 16) - 1
+
 func writeUint(w io.Writer, value uint64, numBytes int) error {
 	buf := make([]uint8, numBytes)
 	for i := 0; i < numBytes; i++ {
@@ -112,6 +116,9 @@ func UnmarshalDigitallySigned(r io.Reader) (*DigitallySigned, error) {
 
 func marshalDigitallySignedHere(ds DigitallySigned, here []byte) ([]byte, error) {
 	sigLen := len(ds.Signature)
+	if sigLen > MaxSignatureLength {
+		return nil, errors.New("signature too large")
+	}
 	dsOutLen := 2 + SignatureLengthBytes + sigLen
 	if here == nil {
 		here = make([]byte, dsOutLen)
